@@ -201,6 +201,9 @@ class Driver:
             clsname = cls.__name__
         spec = {'run_dir': rd, 'arm': dict(ARM[kind], cls=clsname), 'files': FILES, 'events': case.get('events', []),
                 'inprocess': kind in ('T', 'PT')}
+        if case.get('parent_arm'):
+            # the landing alphabet is the parent's own call (a preemption point enumeration), not the child's run loop
+            spec['arm'] = dict(case['parent_arm'], cls=clsname)
         obs = {'case': case, 'stage': 'start'}
         persistent = kind.startswith('P') and kind != 'P'
         kw = {}
@@ -334,6 +337,20 @@ class Driver:
     def _drive(self, case, kind, w, persistent, pipe, rd, obs, marker):
         events = case.get('events', [])
         T = case.get('timeout', 10)
+        live = None
+        if persistent and case.get('consume') == 'live':
+            # a consumer that is already blocked on the stream while the worker is alive
+            live = {'got': [], 'end': None}
+
+            def consumer():
+                try:
+                    for v in w.results_iter():
+                        live['got'].append(_rep(v))
+                    live['end'] = 'empty'
+                except BaseException as e:  # noqa
+                    live['end'] = 'RAISES:%s' % type(e).__name__
+            live['thread'] = threading.Thread(target=consumer, daemon=True)
+            live['thread'].start()
         if persistent:
             for x in case.get('inputs', []):
                 try:
@@ -368,6 +385,12 @@ class Driver:
             elif ev['action'] in ('sigkill', 'sigterm', 'raise'):
                 pass
         obs['stage'] = 'events-done'
+        if case.get('forced_terminate'):
+            time.sleep(case.get('forced_delay', 0.3))
+            t0 = time.time()
+            r = with_timeout(lambda: w.terminate(timeout=case.get('forced_timeout', 0.4), force=True), 30)
+            obs.setdefault('terminate_ret', []).append(r if isinstance(r, (bool, str)) else repr(r))
+            obs.setdefault('terminate_s', []).append(round(time.time() - t0, 3))
         if case.get('idle_terminate'):
             # the persistent child is blocked waiting for input: read the answers first, then terminate
             got = []
@@ -415,7 +438,14 @@ class Driver:
         obs['user_state'] = _rep(with_timeout(lambda: w.user_state, 5))
         obs['marker'] = os.path.exists(marker)
         obs['stage'] = 'accessors-done'
-        if persistent:
+        if persistent and live is not None:
+            live['thread'].join(4)
+            obs['results'] = list(live['got'])
+            obs['stream_end'] = live['end'] if not live['thread'].is_alive() else 'hang'
+            if obs['stream_end'] == 'empty':
+                again = with_timeout(lambda: w.next_result(), 3)
+                obs['after_end'] = again if isinstance(again, str) else 'value'
+        elif persistent:
             # the result stream must be a prefix of the expected sequence and must end
             res = []
             end = None
